@@ -745,3 +745,118 @@ Proof.
   intros j. rewrite (applied_exactly _ Q'), (applied_exactly _ Q). unfold chain.
   rewrite T, R, !(hgt_static _ _ _ S), (anc_list_static _ _ _ _ S). reflexivity.
 Qed.
+
+(** ** failure leaves P unchanged (as a multiset) *)
+Definition staticInv (L : list (N * N * Z * list (list ccmd))) (s : cst) : Prop :=
+  map (static ccmd) (blocks _ _ s) = L.
+Lemma static_upd : forall (l : list (blk ccmd)) i f,
+    (forall b, static ccmd (f b) = static ccmd b) -> map (static ccmd) (upd ccmd l i f) = map (static ccmd) l.
+Proof.
+  intros l i f Hf. unfold upd. rewrite map_map. apply map_ext. intros b. destruct (N.eqb (b_id ccmd b) i); [apply Hf|reflexivity].
+Qed.
+Lemma static_strip_eq : forall l l' : list (blk ccmd),
+    map (strip ccmd) l = map (strip ccmd) l' -> map (static ccmd) l = map (static ccmd) l'.
+Proof.
+  intros l l' H. assert (E : forall x : list (blk ccmd), map (static ccmd) x = map (static ccmd) (map (strip ccmd) x)).
+  { intros x. rewrite map_map. apply map_ext. intros. reflexivity. }
+  rewrite (E l), (E l'), H. reflexivity.
+Qed.
+Lemma staticInv_apply : forall L s i s' ok, staticInv L s -> c_applyBlock s i = Ok (s', ok) -> staticInv L s'.
+Proof.
+  intros L s i s' ok HI H. destruct ok.
+  - unfold c_applyBlock, applyBlock in H.
+    destruct (find ccmd (blocks pstate ccmd s) i) as [b|]; [|discriminate].
+    destruct (N.eqb i (root pstate ccmd s)); [discriminate|].
+    destruct (find ccmd (blocks pstate ccmd s) (b_par ccmd b)) as [pb|]; [|discriminate].
+    destruct (negb (b_act ccmd pb)); [discriminate|].
+    destruct (b_act ccmd b); [discriminate|].
+    destruct (child_active ccmd (blocks pstate ccmd s) i); [discriminate|].
+    destruct (b_fc ccmd b); [discriminate|].
+    destruct (is_failed ccmd b); [discriminate|].
+    destruct (N.ltb (b_lvl ccmd b) L_CONNECTED); [discriminate|].
+    destruct (gsexec pstate ccmd cexec cunexec [] (b_gs ccmd b) (pst pstate ccmd s)) as [p' ok].
+    destruct ok; cbn [negb] in H.
+    + destruct (N.ltb (b_lvl ccmd b) _ && N.ltb (b_lvl ccmd pb) _); [discriminate|]. inversion H; subst.
+      unfold staticInv. cbn [blocks]. rewrite static_upd; [exact HI|reflexivity].
+    + destruct (invalidate_pop pstate ccmd _ i); cbn in H; [|discriminate]. inversion H.
+  - apply c_applyBlock_atomic in H. destruct H as (_ & _ & _ & _ & Hs). unfold staticInv.
+    rewrite (static_strip_eq _ _ Hs). exact HI.
+Qed.
+Lemma staticInv_unapply : forall L s i s', staticInv L s -> c_unapplyBlock s i = Ok s' -> staticInv L s'.
+Proof.
+  intros L s i s' HI H. unfold c_unapplyBlock, unapplyBlock in H.
+  destruct (find ccmd (blocks pstate ccmd s) i) as [b|]; [|discriminate].
+  destruct (N.eqb i (root pstate ccmd s)); [discriminate|].
+  destruct (negb (b_act ccmd b)); [discriminate|].
+  destruct (find ccmd (blocks pstate ccmd s) (b_par ccmd b)) as [pb|]; [|discriminate].
+  destruct (negb (b_act ccmd pb)); [discriminate|].
+  destruct (child_active ccmd (blocks pstate ccmd s) i); [discriminate|].
+  destruct (N.eqb (napp pstate ccmd s) 0); [discriminate|].
+  inversion H; subst. unfold staticInv. cbn [blocks]. rewrite static_upd; [exact HI|reflexivity].
+Qed.
+Lemma static_setState : forall s to s' ok,
+    c_setState s to = Ok (s', ok) -> map (static ccmd) (blocks _ _ s') = map (static ccmd) (blocks _ _ s).
+Proof.
+  intros s to s' ok H.
+  exact (Inv_setState pstate ccmd cexec cunexec (staticInv (map (static ccmd) (blocks _ _ s)))
+           (staticInv_apply _) (staticInv_unapply _) (fun s t n H => H) s to s' ok eq_refl H).
+Qed.
+
+Lemma active_items_ext : forall l l' : list (blk ccmd),
+    map core l' = map core l -> map (static ccmd) l' = map (static ccmd) l -> active_items l' = active_items l.
+Proof.
+  induction l as [|b r IH]; intros l' Hc Hs; destruct l' as [|b' r']; cbn in Hc, Hs; try discriminate; [reflexivity|].
+  inversion Hc. inversion Hs. cbn [active_items flat_map].
+  fold (active_items r'). fold (active_items r). rewrite (IH r') by assumption.
+  replace (b_act ccmd b') with (b_act ccmd b) by congruence. replace (b_gs ccmd b') with (b_gs ccmd b) by congruence. reflexivity.
+Qed.
+
+Lemma cores_eq_of_act : forall l l' : list ent,
+    map (fun e => (e_id e, e_par e, e_h e)) l' = map (fun e => (e_id e, e_par e, e_h e)) l ->
+    NoDup (map e_id l) -> (forall j, is_act l' j <-> is_act l j) -> l' = l.
+Proof.
+  intros l l' Hm ND Hact.
+  assert (NDp : NoDup (map e_id l')).
+  { assert (map e_id l' = map e_id l); [|congruence].
+    assert (E : forall x : list ent, map e_id x = map (fun t : N * N * Z => fst (fst t)) (map (fun e => (e_id e, e_par e, e_h e)) x)).
+    { intros x. rewrite map_map. reflexivity. }
+    rewrite (E l'), (E l), Hm. reflexivity. }
+  assert (G : forall a b : list ent,
+             map (fun e => (e_id e, e_par e, e_h e)) a = map (fun e => (e_id e, e_par e, e_h e)) b ->
+             (forall e, In e a -> (e_act e = true <-> is_act l' (e_id e))) ->
+             (forall e, In e b -> (e_act e = true <-> is_act l (e_id e))) -> a = b).
+  { induction a as [|x a IH]; intros b Hab Ha Hb; destruct b as [|y b]; cbn in Hab; try discriminate; [reflexivity|].
+    inversion Hab. f_equal; [|apply IH; [assumption|intros; apply Ha; right; assumption|intros; apply Hb; right; assumption]].
+    destruct x as [[[xi xp] xh] xa], y as [[[yi yp] yh] ya]. unfold e_id, e_par, e_h in *. cbn in *. subst.
+    f_equal. specialize (Ha (yi, yp, yh, xa) (or_introl eq_refl)). specialize (Hb (yi, yp, yh, ya) (or_introl eq_refl)).
+    cbn in Ha, Hb. rewrite Hact in Ha. destruct xa, ya; try reflexivity.
+    - symmetry. apply Hb. apply Ha. reflexivity.
+    - apply Ha. apply Hb. reflexivity. }
+  apply G; [exact Hm| |].
+  - intros e Hin. split.
+    + intros Ha. exists e. split; [apply cfind_in; assumption|exact Ha].
+    + intros (e2 & He2 & Ha2). rewrite (cfind_in _ _ NDp Hin) in He2. inversion He2; subst. exact Ha2.
+  - intros e Hin. split.
+    + intros Ha. exists e. split; [apply cfind_in; assumption|exact Ha].
+    + intros (e2 & He2 & Ha2). rewrite (cfind_in _ _ ND Hin) in He2. inversion He2; subst. exact Ha2.
+Qed.
+
+Theorem setState_failure_P_unchanged : forall base s to s',
+    quiet s -> canon base s -> c_setState s to = Ok (s', false) ->
+    cores s' = cores s /\ Permutation (pst _ _ s') (pst _ _ s).
+Proof.
+  intros base s to s' Q C H.
+  destruct (setState_applied_exactly _ _ _ _ Q H) as (Q' & _ & _ & Hf). destruct (Hf eq_refl) as (_ & _ & Hact).
+  pose proof (static_setState _ _ _ _ H) as Hs.
+  assert (Hc : cores s' = cores s).
+  { apply cores_eq_of_act; [|destruct Q as ((ND & _) & _); exact ND|exact Hact].
+    unfold cores. rewrite !map_map.
+    assert (E : forall x : list (blk ccmd), map (fun b => (e_id (core b), e_par (core b), e_h (core b))) x
+                                         = map (fun t : N * N * Z * list (list ccmd) => fst t) (map (static ccmd) x)).
+    { intros x. rewrite map_map. reflexivity. }
+    rewrite (E (blocks _ _ s')), (E (blocks _ _ s)), Hs. reflexivity. }
+  split; [exact Hc|].
+  pose proof (canon_setState _ _ _ _ _ C H) as [P' _]. destruct C as [P0 _].
+  eapply perm_trans; [exact P'|]. eapply perm_trans; [|symmetry; exact P0].
+  apply Permutation_app_tail. rewrite (active_items_ext _ _ Hc Hs). reflexivity.
+Qed.
